@@ -198,7 +198,7 @@ def sched_plan(r, est=300, ustep=0.12):
             s["ustep_p"], s["ustep_max"] = r.choice([(0.1, 150), (0.15, 200), (0.3, 100)])
             s["ustep_locks"] = r.choice([3, 4, 6])
             s["ustep_after"] = r.choice([16, 24, 32])
-            s["ustep_hold"] = r.choice([0, 4, 6, 8])
+            s["ustep_hold"] = r.choice([0, 4, 6, 8, 40, 400])  # the last two: a thread descheduled for a long time while the others run on
         else:
             s["ustep_p"], s["ustep_max"] = r.choice([(0.05, 200), (0.3, 40), (0.02, 3000), (0.1, 600)])
         if r.random() < 0.3:
